@@ -25,6 +25,13 @@ def tla_const(v):
     return str(v)
 
 
+def const_line(k, v):
+    """'<-Name' substitutes an operator defined in the (MC / trace) module for the constant"""
+    if isinstance(v, str) and v.startswith("<-"):
+        return "  %s <- %s\n" % (k, v[2:])
+    return "  %s = %s\n" % (k, tla_const(v))
+
+
 def mc(res, work, module, name, consts, invariants, properties=(), spec="Spec", timeout=900, constraint=None,
        extra_defs="", workers=8):
     d = os.path.join(work, "mc_%s_%s" % (module, name))
@@ -36,7 +43,7 @@ def mc(res, work, module, name, consts, invariants, properties=(), spec="Spec", 
     with open(cfg, "w") as f:
         f.write("SPECIFICATION %s\nCONSTANTS\n" % spec)
         for k, v in consts.items():
-            f.write("  %s = %s\n" % (k, tla_const(v)))
+            f.write(const_line(k, v))
         for i in invariants:
             f.write("INVARIANT %s\n" % i)
         for p in properties:
@@ -86,7 +93,7 @@ def validate_groups(work, trace_module, groups, invariant="TraceInv", timeout=90
         with open(cfg, "w") as f:
             f.write("SPECIFICATION TraceSpec\nCONSTANTS\n")
             for k, v in consts.items():
-                f.write("  %s = %s\n" % (k, tla_const(v)))
+                f.write(const_line(k, v))
             if invariant:
                 f.write("INVARIANT %s\n" % invariant)
             f.write("POSTCONDITION Report\nCHECK_DEADLOCK FALSE\n")
